@@ -13,7 +13,7 @@ oracle:          C05's statement on the implementation's observable behaviour: n
                  within a budget linear in the input (calibrated on the unmutated file), ends with a Severity enum value.
 A failing input is minimised by bisection over the mutation parameter and compared with the model's predicted threshold.
 """
-import itertools, json, math, os, re, subprocess, sys, time
+import itertools, json, math, os, random, re, subprocess, sys, time
 from concurrent.futures import ThreadPoolExecutor
 from vlib import build as B, lean as L
 
@@ -360,6 +360,62 @@ def loop_requests(ctx, quick, k):
         req.append(f"skipinst {hexs(b'y' * n + b';z')}")
         req.append(f"findstart {hexs(b'(' * n + b'#z')}")
     return req
+
+
+def pass2_stream(ctx, real, quick):
+    """ReadData2 with the ReadInstance skeleton against the real second pass.  The real run reports which ids pass 1 created;
+    that set is the model's look-up oracle (second round).  Records of the entity without attributes (its STEPread is the
+    modelled `stepReadNoAttrs`), unknown keywords, user-defined entities, missing `=`, missing `;`, damaged records."""
+    toks = [b"#%d=BARE();", b"#%d=BARE(x);", b"#%d=BARE(", b"#%d=NOPE(1);", b"#%d=BARE() junk;", b"#%d BARE();", b"#%d=!U(1);", b"/*c*/", b" ",
+            b"ENDSEC;", b"#%d=BARE(')');", b"#%d=BARE()", b"garbage;", b"#%d=BARE(;);", b"#%d = /*c*/ BARE ( ) ;", b"#%d=bare();",
+            b"#%d=BARE('a;b');", b"#%d=BARE(x) y);", b"\n", b"#%d=BARE(x;"]
+
+    def fresh(parts):
+        kk, out = 0, b""
+        for x in parts:
+            if b"%d" in x:
+                kk += 1
+                x = x % kk
+            out += x
+        return out
+    datas = []
+    for n in range(0, (2 if quick else 3) + 1):
+        for tt in itertools.product(toks, repeat=n):
+            datas.append(fresh(tt))
+    rng = random.Random(f"C05-pass2:{ctx.seed}")
+    for _ in range(300 if quick else 5000):
+        datas.append(fresh([rng.choice(toks) for _i in range(rng.randrange(1, 9))]))
+    ans_r = real.run_fn([f"readdata2 {hexs(d)} 0" for d in datas])
+    lines_m = []
+    for d, a in zip(datas, ans_r):
+        mask = 0
+        if isinstance(a, str):
+            mm = re.search(r"ids=([\d,]*)", a)
+            for x in (mm.group(1).split(",") if mm and mm.group(1) else []):
+                if int(x) < 60:
+                    mask |= 1 << int(x)
+        lines_m.append(f"readdata2 {hexs(d)} {mask}")
+    ans_m = run_model(ctx, lines_m)
+    nbad = 0
+    for d, a, m, lm in zip(datas, ans_r, ans_m, lines_m):
+        ctx.count(1, key=("fn", "readdata2", d))
+        ctx.hist("function-level", "readdata2")
+        if isinstance(a, dict):
+            ctx.violation(f"fn:readdata2:{a['fail']}@{a['where']}", f"pass 2 on {d[:60]!r}: {a['fail']} in {a['where']} (model: {m})",
+                          {"kind": "fn", "schema": real.schema, "request": f"readdata2 {hexs(d)} 0", "sanitizer": a["err"][-1200:]})
+            continue
+        if a == "skipped":
+            continue
+        a2 = re.sub(r"ids=[\d,]* ", "", a)
+        if m is not None and m.startswith("outOfFuel"):
+            ctx.broken.append(("correspondence readdata2: the model runs out of fuel where the implementation ends", f"`{lm}`: {a}"))
+            nbad += 1
+        elif a2 != m and nbad < 3:
+            nbad += 1
+            ctx.broken.append(("correspondence ReadData2 / ReadInstance skeleton vs implementation",
+                               f"`{lm}` ({d[:80]!r}): impl `{a}` vs model `{m}`"))
+    ctx.cov["correspondence"]["pass 2 (ReadInstance skeleton)"] = {"inputs": len(datas), "different": nbad}
+    return nbad == 0
 
 
 def stream_kind(ctx, real, quick):
@@ -1279,6 +1335,7 @@ def run(ctx):
         if si == 0 and have_model:
             function_level(ctx, real, quick, k)
             stream_kind(ctx, real, quick)
+            pass2_stream(ctx, real, quick)
         file_level(ctx, real, files, quick, ms_per_byte)
         attr_exhaustive(ctx, real, quick, ms_per_byte)
         aggr_exit_stream(ctx, real, quick, ms_per_byte)
